@@ -219,7 +219,8 @@ def _step(b: Builder, h: str, profile, H: int, force_mapped: bool = False) -> st
         return b.op("layer_norm", [h, g, bb], [B, S, D], normalized_shape=[D])
     if choice == "matmul":
         w = b.param([D, D])
-        return b.op("matmul", [h, w], [B, S, D])
+        # the product written as a function call or with the @ operator (the same operation to the reader)
+        return b.op("matmul", [h, w], [B, S, D], mform=rng.choice(["fn", "fn", "at"]))
     if choice == "conv1d":
         t = b.op("transpose", [h], [B, D, S], dims=[1, 2])
         if "nn_conv1d" in forms and rng.random() < 0.4:
@@ -355,7 +356,7 @@ def emit_op(o: Dict[str, Any]) -> str:
     if op in ("nn_linear", "uu_linear", "nn_gelu", "nn_softmax", "nn_layer_norm", "nn_embedding", "nn_conv1d"):
         return f"{out} = self.{kw['mod']}({a[0]})"
     if op == "matmul":
-        return f"{out} = torch.matmul({a[0]}, {a[1]})"
+        return f"{out} = {a[0]} @ {a[1]}" if kw.get("mform") == "at" else f"{out} = torch.matmul({a[0]}, {a[1]})"
     if op == "gelu":
         return f"{out} = F.gelu({a[0]}" + (f", approximate={kw['approximate']!r})" if "approximate" in kw else ")")
     if op == "custom_act":
